@@ -16,13 +16,17 @@ with the multiplication operator, to construct values such as `11 * e(-21)`.
 """
 
 from enum import Enum
-from decimal import Decimal
+from decimal import Decimal, Context, localcontext, MAX_PREC, MAX_EMAX, MIN_EMIN
 from typing import Optional, Any, Union, Tuple
 from pydantic import BaseModel, Field
 from pydantic.dataclasses import dataclass
 
 
 EPSILON = 20
+
+# Decimal context in which sums, differences, products and power-of-ten scalings are exact.
+# (The default context silently rounds every result to 28 significant digits.)
+_EXACT = Context(prec=MAX_PREC, Emax=MAX_EMAX, Emin=MIN_EMIN)
 
 
 class Prefix(Enum):
@@ -88,7 +92,9 @@ class Prefix(Enum):
             exptemp = e(targ)
 
             # Scale the other number
-            new_num = other.number * Decimal(10) ** (targ - exptemp.symbol.value)
+            factor = Decimal(10) ** (targ - exptemp.symbol.value)
+            with localcontext(_EXACT):
+                new_num = other.number * factor
 
             # And create a corresponding `Prefixed`
             return Prefixed.new(new_num, exptemp.symbol)
@@ -209,24 +215,36 @@ class Prefixed(BaseModel):
         return float(self.number) * 10**self.prefix.value
 
     def __neg__(self) -> "Prefixed":
-        return Prefixed.new(-self.number, self.prefix)
+        with localcontext(_EXACT):
+            number = -self.number
+        return Prefixed.new(number, self.prefix)
 
     def __abs__(self) -> "Prefixed":
-        return Prefixed.new(abs(self.number), self.prefix)
+        with localcontext(_EXACT):
+            number = abs(self.number)
+        return Prefixed.new(number, self.prefix)
 
     def __mul__(self, other) -> "Prefixed":
         if isinstance(other, Prefixed):
-            return (self.number * other.number * self.prefix * other.prefix).scale()
+            with localcontext(_EXACT):
+                number = self.number * other.number
+            return (number * self.prefix * other.prefix).scale()
         elif not isinstance(other, (str, int, float, Decimal)):
             return NotImplemented
-        return Prefixed.new(self.number * Decimal(str(other)), self.prefix).scale()
+        with localcontext(_EXACT):
+            number = self.number * Decimal(str(other))
+        return Prefixed.new(number, self.prefix).scale()
 
     def __rmul__(self, other) -> "Prefixed":
         if isinstance(other, Prefixed):
-            return (self.number * other.number * self.prefix * other.prefix).scale()
+            with localcontext(_EXACT):
+                number = self.number * other.number
+            return (number * self.prefix * other.prefix).scale()
         elif not isinstance(other, (str, int, float, Decimal)):
             return NotImplemented
-        return Prefixed.new(self.number * Decimal(str(other)), self.prefix).scale()
+        with localcontext(_EXACT):
+            number = self.number * Decimal(str(other))
+        return Prefixed.new(number, self.prefix).scale()
 
     def __truediv__(self, other) -> "Prefixed":
         if isinstance(other, Prefixed):
@@ -296,7 +314,9 @@ class Prefixed(BaseModel):
     def scale(self, prefix: Prefix = None) -> "Prefixed":
         """Scale to a new `Prefix`"""
         if isinstance(prefix, Prefix):
-            newnum = self.number * Decimal(10) ** (self.prefix.value - prefix.value)
+            factor = Decimal(10) ** (self.prefix.value - prefix.value)
+            with localcontext(_EXACT):
+                newnum = self.number * factor
             return Prefixed.new(newnum, prefix)
         else:
             newpref = Prefix.closest(abs(self.number).log10() + self.prefix.value)
@@ -358,22 +378,30 @@ def to_prefixed(v: Union[Prefixed, ToPrefixed]) -> Prefixed:
 def _add(lhs: Prefixed, rhs: Prefixed) -> Prefixed:
     """`Prefixed` Addition"""
     if lhs.prefix == rhs.prefix:
-        return Prefixed.new(lhs.number + rhs.number, lhs.prefix)
+        with localcontext(_EXACT):
+            newnum = lhs.number + rhs.number
+        return Prefixed.new(newnum, lhs.prefix)
 
     # Different prefix values. Scale to the smaller of the two
     smaller = lhs.prefix if lhs.prefix.value < rhs.prefix.value else rhs.prefix
-    newnum = lhs.scale(smaller).number + rhs.scale(smaller).number
+    lhs, rhs = lhs.scale(smaller), rhs.scale(smaller)
+    with localcontext(_EXACT):
+        newnum = lhs.number + rhs.number
     return Prefixed.new(newnum, smaller)
 
 
 def _subtract(lhs: Prefixed, rhs: Prefixed) -> Prefixed:
     """`Prefixed` Subtraction"""
     if lhs.prefix == rhs.prefix:
-        return Prefixed.new(lhs.number - rhs.number, lhs.prefix)
+        with localcontext(_EXACT):
+            newnum = lhs.number - rhs.number
+        return Prefixed.new(newnum, lhs.prefix)
 
     # Different prefix values. Scale to the smaller of the two
     smaller = lhs.prefix if lhs.prefix.value < rhs.prefix.value else rhs.prefix
-    newnum = lhs.scale(smaller).number - rhs.scale(smaller).number
+    lhs, rhs = lhs.scale(smaller), rhs.scale(smaller)
+    with localcontext(_EXACT):
+        newnum = lhs.number - rhs.number
     return Prefixed.new(newnum, smaller)
 
 
